@@ -35,10 +35,11 @@ def java_cmd(extra_lib=None, heap='8g', deque=False, props=()):
     return cmd
 
 
-def parse_value(s):
+def parse_value(s, start=0):
     """Parse a TLA+ value printed by TLC (tuples, records, sets, strings, ints, booleans, functions
-    printed as (a :> b @@ c :> d)) into python: tuple->list, record->dict, set->('set',[...])."""
-    pos = 0
+    printed as (a :> b @@ c :> d)) into python: tuple->list, record->dict, set->('set',[...]).
+    Returns (value, end position)."""
+    pos = start
     n = len(s)
 
     def ws():
@@ -165,9 +166,9 @@ def extract_prints(out, tag='HV'):
             break
         i = m.start()
         try:
-            v, used = parse_value(out[i:])
+            v, end = parse_value(out, i)
             res.append(v)
-            i += used
+            i = end
         except (ValueError, IndexError, AttributeError):
             i = m.end()
     return res
